@@ -56,105 +56,95 @@ Proof.
 Qed.
 
 (* ------------------------------------------------------------------ the role lists *)
-(* invariant after the columns 0 .. i-1 have received their role *)
-Definition LI (i : Z) (locs : list (list Z)) : Prop :=
-  length locs = 29%nat /\ NoDup (concat locs) /\ Forall (fun u => 0 <= u < i) (concat locs).
-
-Lemma LI_init : LI 0 no_loc.
-Proof. unfold LI, no_loc. simpl. split; [reflexivity|split; constructor]. Qed.
-
-Lemma in_concat_nth : forall (ls : list (list Z)) k u, In u (nth k ls []) -> In u (concat ls).
-Proof.
-  induction ls as [|l ls IH]; intros [|k] u H; simpl in *; try contradiction.
-  - apply in_or_app. left. assumption.
-  - apply in_or_app. right. eapply IH. eassumption.
-Qed.
-Lemma length_nth_concat : forall (ls : list (list Z)) k, (length (nth k ls []) <= length (concat ls))%nat.
-Proof.
-  induction ls as [|l ls IH]; intros [|k]; simpl; try lia.
-  - rewrite app_length. lia.
-  - rewrite app_length. specialize (IH k). lia.
-Qed.
-
-Lemma LI_replace : forall i locs t k,
-  0 <= i -> LI i locs -> (k <= length (nth t locs []))%nat ->
-  LI (i + 1) (upd_nth locs t (set_at (nth t locs []) k i)).
-Proof.
-  intros i locs t k Hi [HL [ND F]] Hk.
-  assert (Hfresh : ~ In i (concat locs)).
-  { intro HI. rewrite Forall_forall in F. specialize (F _ HI). lia. }
-  assert (F' : Forall (fun u => 0 <= u < i + 1) (concat locs)).
-  { eapply Forall_impl; [|exact F]. simpl. intros. lia. }
-  destruct (le_lt_dec (length locs) t) as [Ht|Ht].
-  - rewrite upd_nth_beyond by assumption. split; [assumption|split; assumption].
-  - destruct (nth_split locs [] Ht) as [A [B [EQ LA]]].
-    remember (nth t locs []) as p eqn:Hp.
-    assert (EC : concat locs = concat A ++ p ++ concat B).
-    { rewrite EQ at 1. rewrite concat_app. simpl. reflexivity. }
-    split; [rewrite upd_nth_length; assumption|].
-    assert (EU : upd_nth locs t (set_at p k i) = A ++ set_at p k i :: B).
-    { rewrite EQ at 1. rewrite <- LA. apply upd_nth_app. }
-    rewrite EU. rewrite concat_app. simpl.
-    destruct (Nat.eq_dec k (length p)) as [Ek|Ek].
-    + subst k. rewrite set_at_end.
-      replace (concat A ++ (p ++ [i]) ++ concat B) with ((concat A ++ p) ++ i :: concat B)
-        by (rewrite <- !app_assoc; reflexivity).
-      rewrite EC in ND, Hfresh, F'. rewrite app_assoc in ND, Hfresh, F'.
-      split.
-      * apply NoDup_insert; assumption.
-      * apply Forall_app in F'. destruct F' as [F1 F2]. apply Forall_app. split; [assumption|].
-        constructor; [lia|assumption].
-    + assert (Hk' : (k < length p)%nat) by lia.
-      destruct (nth_split p 0 Hk') as [p1 [p2 [EP LP]]].
-      rewrite EP. rewrite <- LP. rewrite set_at_mid.
-      replace (concat A ++ (p1 ++ i :: p2) ++ concat B) with ((concat A ++ p1) ++ i :: (p2 ++ concat B))
-        by (rewrite <- !app_assoc; reflexivity).
-      rewrite EC, EP in ND, Hfresh, F'.
-      replace (concat A ++ (p1 ++ nth k p 0 :: p2) ++ concat B) with ((concat A ++ p1) ++ nth k p 0 :: (p2 ++ concat B)) in ND, Hfresh, F'
-        by (rewrite <- !app_assoc; reflexivity).
-      split.
-      * apply NoDup_insert.
-        -- eapply NoDup_remove_1. exact ND.
-        -- intro HI. apply Hfresh. apply in_app_or in HI. apply in_or_app. destruct HI; [left; assumption|right; right; assumption].
-      * apply Forall_app in F'. destruct F' as [F1 F2]. inversion F2; subst. apply Forall_app. split; [assumption|].
-        constructor; [lia|assumption].
-Qed.
-
 Lemma znth_nth : forall (ls : list (list Z)) t, 0 <= t -> znth ls t [] = nth (Z.to_nat t) ls [].
 Proof. intros. unfold znth. replace (t <? 0) with false by (symmetry; apply Z.ltb_ge; lia). reflexivity. Qed.
 
-(* Db::setLocatorByUID as called by Db::_deserialize, with the clamp *)
-Lemma set_locator_fixed : forall E ncol locs i typ idx m,
-  fix_loc (e_cfg E) = true -> 0 <= i < ncol -> 0 <= idx -> (ncol + 1) * 4 <= e_cap E -> LI i locs ->
+Lemma set_at_length : forall p k v, length (set_at p k v) = Nat.max (length p) (S k).
+Proof.
+  induction p as [|x p IH]; intros k v.
+  - induction k as [|k IHk]; simpl; [reflexivity|]. rewrite IHk. simpl. lia.
+  - destruct k as [|k]; simpl; [lia|]. rewrite IH. lia.
+Qed.
+Lemma set_at_Forall : forall (P : Z -> Prop) p k v, P 0 -> P v -> Forall P p -> Forall P (set_at p k v).
+Proof.
+  intros P p. induction p as [|x p IH]; intros k v H0 Hv HF.
+  - induction k as [|k IHk]; simpl; constructor; auto.
+  - inversion HF; subst. destruct k as [|k]; simpl; constructor; auto.
+Qed.
+Lemma concat_upd : forall (locs : list (list Z)) t p', (t < length locs)%nat ->
+  exists A B, concat locs = concat A ++ nth t locs [] ++ concat B /\
+              concat (upd_nth locs t p') = concat A ++ p' ++ concat B.
+Proof.
+  intros locs t p' Ht. destruct (nth_split locs [] Ht) as [A [B [EQ LA]]]. exists A, B. split.
+  - rewrite EQ at 1. rewrite concat_app. simpl. reflexivity.
+  - rewrite EQ at 1. rewrite <- LA. rewrite upd_nth_app. rewrite concat_app. simpl. reflexivity.
+Qed.
+Lemma Forall_upd_nth : forall A (P : A -> Prop) (l : list A) k v, Forall P l -> P v -> Forall P (upd_nth l k v).
+Proof.
+  induction l as [|x l IH]; intros k v HF Hv; [destruct k; constructor|].
+  inversion HF; subst. destruct k; simpl; constructor; auto.
+Qed.
+Lemma Forall_nth_default : forall (P : list Z -> Prop) (l : list (list Z)) k, Forall P l -> P [] -> P (nth k l []).
+Proof.
+  induction l as [|x l IH]; intros k HF H0; [destruct k; assumption|].
+  inversion HF; subst. destruct k; simpl; auto.
+Qed.
+Lemma concat_length_bound : forall (l : list (list Z)) b, 0 <= b -> Forall (fun x => zlen x <= b) l ->
+  zlen (concat l) <= Z.of_nat (length l) * b.
+Proof.
+  induction l as [|x l IH]; intros b Hb HF; [unfold zlen; simpl; lia|].
+  inversion HF; subst. specialize (IH b Hb H2). unfold zlen in *. cbn [concat length]. rewrite app_length.
+  rewrite Nat2Z.inj_add, Nat2Z.inj_succ. nia.
+Qed.
+
+Definition is_throw16 (b : bad) : bool := match b with Throw k s => (k =? 1) && (s =? 16) | _ => false end.
+
+(* Db::setLocatorByUID as called by Db::_deserialize (no clamp: a rank beyond the count pads the list with 0).
+   [i] is the column being handled: the lists only hold fillers (0) and columns below i. *)
+Lemma set_locator_spec : forall E ncol locs i typ idx m,
+  0 <= i < ncol -> 0 <= idx -> typ < 29 -> length locs = 29%nat -> Forall (fun u => 0 <= u < i) (concat locs) ->
   match set_locator E ncol locs i typ idx m with
-  | Ret locs' m' => ms m' = ms m /\ galloc m <= galloc m' <= galloc m + 4 /\ LI (i + 1) locs'
-  | Bad _ => False
+  | Ret locs' m' => ms m' = ms m /\ length locs' = 29%nat /\ Forall (fun u => 0 <= u < i + 1) (concat locs') /\
+                    galloc m' = galloc m + 4 * (zlen (concat locs') - zlen (concat locs)) /\
+                    zlen (concat locs) <= zlen (concat locs') /\
+                    (forall b, Forall (fun l => zlen l <= b) locs -> idx < b -> Forall (fun l => zlen l <= b) locs')
+  | Bad b => is_throw16 b = true /\ e_cap E < (idx + 1) * 4
   end.
 Proof.
-  intros E ncol locs i typ idx m HF Hi Hidx Hcap HLI. unfold set_locator. rewrite HF.
+  intros E ncol locs i typ idx m Hi Hidx Htyp HL F. unfold set_locator.
   replace ((0 <=? i) && (i <? ncol)) with true
     by (symmetry; apply andb_true_iff; split; [apply Z.leb_le|apply Z.ltb_lt]; lia).
-  destruct HLI as [HL [ND F]].
   assert (Hfresh : ~ In i (concat locs)).
   { intro HI. rewrite Forall_forall in F. specialize (F _ HI). lia. }
   rewrite map_remove_first_notin by assumption.
+  assert (F' : Forall (fun u => 0 <= u < i + 1) (concat locs)).
+  { eapply Forall_impl; [|exact F]. simpl. intros. lia. }
   destruct (typ <? 0) eqn:CT.
-  - split; [reflexivity|split; [lia|]]. split; [assumption|split; [assumption|]].
-    eapply Forall_impl; [|exact F]. simpl. intros. lia.
-  - apply Z.ltb_ge in CT. rewrite znth_nth by assumption.
-    set (p := nth (Z.to_nat typ) locs []).
-    assert (HP : Z.of_nat (length p) <= i).
-    { pose proof (length_nth_concat locs (Z.to_nat typ)) as H1.
-      pose proof (NoDup_range_length _ _ ND F) as H2. unfold p. lia. }
-    set (idx' := Z.min idx (zlen p)).
-    assert (Hk : (Z.to_nat idx' <= length p)%nat) by (unfold idx', zlen; lia).
-    pose proof (LI_replace i locs (Z.to_nat typ) (Z.to_nat idx') ltac:(lia) (conj HL (conj ND F)) Hk) as HR.
-    fold p in HR.
-    destruct (zlen p <=? idx') eqn:CN.
-    + apply Z.leb_le in CN.
-      replace (e_cap E <? (idx' + 1) * 4) with false by (symmetry; apply Z.ltb_ge; unfold idx', zlen in *; lia).
-      simpl. split; [reflexivity|split; [unfold idx', zlen in *; lia|exact HR]].
-    + split; [reflexivity|split; [lia|exact HR]].
+  - split; [reflexivity|split; [assumption|split; [assumption|split; [lia|split; [lia|]]]]]. intros b Hb _. assumption.
+  - apply Z.ltb_ge in CT. rewrite znth_nth by assumption. cbv zeta.
+    set (t := Z.to_nat typ). assert (Ht : (t < length locs)%nat) by (unfold t; lia).
+    set (p := nth t locs []).
+    set (p' := set_at p (Z.to_nat idx) i).
+    destruct (concat_upd locs t p' Ht) as [A [B [EC EU]]]. fold p in EC.
+    assert (FP : Forall (fun u => 0 <= u < i + 1) p') by
+      (unfold p'; apply set_at_Forall; [lia|lia|]; rewrite EC in F'; apply Forall_app in F'; destruct F' as [_ F2]; apply Forall_app in F2; destruct F2; assumption).
+    assert (FU : Forall (fun u => 0 <= u < i + 1) (concat (upd_nth locs t p'))).
+    { rewrite EU. rewrite EC in F'. apply Forall_app in F'. destruct F' as [F1 F2]. apply Forall_app in F2. destruct F2 as [F2 F3].
+      apply Forall_app. split; [assumption|]. apply Forall_app. split; assumption. }
+    assert (LP : length p' = Nat.max (length p) (S (Z.to_nat idx))) by (unfold p'; apply set_at_length).
+    assert (LC : zlen (concat (upd_nth locs t p')) = zlen (concat locs) - zlen p + zlen p').
+    { rewrite EU, EC. unfold zlen. rewrite !app_length. lia. }
+    assert (LB : forall b, Forall (fun l => zlen l <= b) locs -> idx < b -> Forall (fun l => zlen l <= b) (upd_nth locs t p')).
+    { intros b Hb Hib. apply Forall_upd_nth; [assumption|].
+      assert (zlen p <= b). { unfold p. apply (Forall_nth_default (fun l => zlen l <= b)); [assumption|unfold zlen; simpl; lia]. }
+      unfold zlen in *. lia. }
+    destruct (zlen p <=? idx) eqn:CN.
+    + apply Z.leb_le in CN. destruct (e_cap E <? (idx + 1) * 4) eqn:CC.
+      * apply Z.ltb_lt in CC. split; [reflexivity|assumption].
+      * cbn [ms galloc]. split; [reflexivity|split; [rewrite upd_nth_length; assumption|split; [assumption|]]].
+        unfold zlen in *. split; [lia|split; [lia|assumption]].
+    + apply Z.leb_gt in CN. split; [reflexivity|split; [rewrite upd_nth_length; assumption|split; [assumption|]]].
+      unfold zlen in *. split; [lia|split; [lia|assumption]].
 Qed.
 
 (* ------------------------------------------------------------------ names *)
